@@ -175,6 +175,8 @@ func ComputeRegistryProcessData(spec *common.Spec, flats []common.FlatValidator,
 		}
 		if exit > exitQueueEnd {
 			exitQueueEnd = exit
+			// the churn is counted per exit epoch: start over for the new end of the queue
+			exitQueueEndChurn = 0
 		}
 		if exit == exitQueueEnd {
 			exitQueueEndChurn++
